@@ -243,6 +243,8 @@ def streams : List Driver.Stream := [
   { name := "c15.qualify", model := qualifyModel, judge := qualifyJudge },
   { name := "c15.addr", model := addrModel, judge := fun _ _ => "ok" },
   { name := "c15.sites", model := sitesModel, judge := sitesJudge },
+  -- the same site sets through the REAL activateHTTPS (reached via the parsing-callback registry): same answer, same judge
+  { name := "c15.activate", model := sitesModel, judge := sitesJudge },
   { name := "c15.redirect", model := redirectModel, judge := redirectJudge }
 ]
 
